@@ -33,7 +33,8 @@ def standing_search(ctx):
     hits, n = enccorr.monitor_trips(ctx)
     h2, n2 = enccorr.monitor_rotation(ctx, "C06")
     h3, n3 = enccorr.monitor_shared(ctx, "C06")
-    hits, n = hits + h2 + h3, n + n2 + n3
+    h4, n4 = enccorr.monitor_receive_paths(ctx, "C06")
+    hits, n = hits + h2 + h3 + h4, n + n2 + n3 + n4
     LAST_SEARCH_CANDIDATES = n
     seen, out = set(), []
     for h in hits:
@@ -112,6 +113,9 @@ def search(ctx, broken, corr_broken):
 
 
 def replay(rp):
+    if rp.get("kind") == "receive-path":
+        import enccorr
+        return enccorr.replay_receive_path(rp)
     if rp.get("kind") == "rotation":
         import enccorr
         return enccorr.replay_rotation(rp)
